@@ -273,7 +273,7 @@ def run_variant(case, d, v):
     if code != 0:
         return out
     for f in sorted(os.listdir(d)):
-        if f.startswith("in.") or f in ("report.json", "info.tsv", "trace.log") or os.path.isdir(os.path.join(d, f)):
+        if f.startswith("in.") or f.startswith("side.") or f in ("report.json", "info.tsv", "trace.log") or os.path.isdir(os.path.join(d, f)):
             continue
         with open(os.path.join(d, f), "rb") as fh:
             data = decompress(f, fh.read())
